@@ -20,10 +20,30 @@ func vrtBigPublish(topic string, seq byte) *specPkt {
 	return &specPkt{Typ: specPUBLISH, Topic: []byte(topic), Payload: payload}
 }
 
+// vrtPublishOfLen: a QoS 0 PUBLISH whose encoding is exactly total bytes long.
+func vrtPublishOfLen(topic string, total int, seq byte) *specPkt {
+	n := total - (1 + 1 + 2 + len(topic))
+	if n+2+len(topic) >= 128 {
+		n--
+	}
+	payload := make([]byte, n)
+	for i := range payload {
+		payload[i] = seq
+	}
+	pk := &specPkt{Typ: specPUBLISH, Topic: []byte(topic), Payload: payload}
+	if len(specEncode(pk)) != total {
+		panic("vrtPublishOfLen")
+	}
+	return pk
+}
+
 func H16_teardown() {
 	b := vrtBroker("mockSuccess")
 	base := vrtLiveGoroutines()
-	cond := vrtChoice("condition", 4) // idle, subscriber stalled (own outbound ring full), publisher blocked behind it too, cross-blocked pair
+	// idle, subscriber stalled (own outbound ring full), publisher blocked behind it too, cross-blocked pair,
+	// publisher flooding itself without reading (its processor blocked on its own outbound ring),
+	// publisher blocked behind the stalled subscriber with a protocol error in the middle of its full pipeline
+	cond := vrtChoice("condition", 6)
 	how := vrtChoice("ending", 5)     // DISCONNECT, network drop, deadline expiry, protocol error, Server.Close
 	var s, p *vrtConn
 	if vrtBool("publisher_connects_first") {
@@ -61,9 +81,45 @@ func H16_teardown() {
 		}
 		vrtQuiesce()
 		vrtReach("C16.cross_blocked")
+	case 4:
+		p.peerStall(100)
+		for i := 0; i < 4; i++ {
+			p.peerSend(specEncode(vrtBigPublish("to/p", byte(i))))
+		}
+		vrtQuiesce()
+		vrtReach("C16.blocked_on_own_ring")
+	case 5:
+		// sizes chosen so that p's processor is blocked delivering a small message X to the
+		// stalled s while p's receiver is parked on p's full inbound ring with less than
+		// one read block free even after X is committed, and the packet after X is invalid:
+		// when s has gone, p's processor ends the connection by itself with the receiver
+		// still parked on the ring.
+		s.peerStall(100)
+		p.peerSend(specEncode(vrtPublishOfLen("to/s", 8409, 0)))
+		vrtQuiesce()
+		for i := 0; i < 30; i++ {
+			s.peerSend(specEncode(&specPkt{Typ: specPINGREQ}))
+		}
+		vrtQuiesce()
+		p.peerSend(specEncode(vrtPublishOfLen("to/s", 8409, 1)))
+		p.peerSend(specEncode(vrtPublishOfLen("to/s", 7600, 2)))
+		p.peerSend(specEncode(vrtPublishOfLen("to/s", 120, 3)))
+		p.peerSend([]byte{0x00, 0x00})
+		p.peerSend(specEncode(vrtPublishOfLen("to/s", 8409, 4)))
+		p.peerSend(specEncode(vrtPublishOfLen("to/s", 8409, 5)))
+		vrtQuiesce()
+		vrtReach("C16.error_in_full_pipeline")
+		for _, svc := range b.svr.svcs {
+			if svc.conn == p && int64(svc.in.Len()) > svc.in.size-defaultReadBlockSize+120 {
+				vrtReach("C16.receiver_parked_behind_error") // the engineered state is the one described above
+			}
+		}
 	}
-	// the endings: first the publisher's connection, then the subscriber's
+	// the endings, one connection after the other (either order)
 	ends := []*vrtConn{p, s}
+	if vrtBool("subscriber_ends_first") {
+		ends = []*vrtConn{s, p}
+	}
 	if how == 4 {
 		// the server is shut down with the connections in this state
 		vrtAssert("C16.server_close_returns", b.svr.Close() == nil)
